@@ -231,6 +231,12 @@ func (ap *app) collectArtifactsRec(dir string) Artifact {
 			// Editor temp files. Ignore.
 			return nil
 		}
+		if !info.IsDir() && !info.Mode().IsRegular() && (info.Mode()&os.ModeType != os.ModeSymlink) {
+			// Not a regular file (fifo, socket, device): it is removed by
+			// removeNonUploadableFiles() right after the results are
+			// written, so it must not be listed among them.
+			return nil
+		}
 		var subA Artifact
 		if info.IsDir() {
 			subA = ap.collectArtifactsRec(path)
